@@ -13,6 +13,7 @@ import ErbiumModel.Judge.C17
 import ErbiumModel.Judge.C02
 import ErbiumModel.Judge.C05
 import ErbiumModel.Judge.C19
+import ErbiumModel.Judge.C07
 /-! Line-protocol driver. stdin: `<suite> <input tokens> => <implementation observation>`;
     stdout: `<correspondence verdict> | <oracle verdict>` per line. -/
 open Erbium Util
@@ -39,6 +40,7 @@ def judge (suite : String) (inp obs : List String) : Verdict :=
   | "dhcpcfg" => Judge.C02.judge inp obs
   | "cfgfield" => Judge.C19.judgeField inp obs
   | "cfgload" => Judge.C19.judgeLoad inp obs
+  | "e2e" => Judge.C07.judge inp obs
   | "icmp6" | "lldp" | "dhcpacc" | "toarr" | "dnssafe" | "dhcpsafe" | "ednsacc" => Judge.C05.judge suite inp obs
   | _ => badInput ("unknown-suite:" ++ suite)
 
